@@ -234,6 +234,20 @@ Definition load_path (tbl : list Z) (sq : Z -> Z) (n : Z) (l : loc) (cs s e : Z)
       ++ eRes eLocQ (cds_to_biopython g ocs)
   end.
 
+(* Record.from_biopython, last step (repair of C10-F65, /repo e0b8bed8): "for added in record.all_features: if
+   location_bridges_origin(added.location): split_origin_bridging_location(added.location)", ValueError ->
+   SecmetInvalidInputError.  For a CDS this is reached with the location AFTER the codon_start adjustment: an
+   origin-spanning gene whose first exon is exactly codon_start-1 bases long keeps an empty first part ([23:23]),
+   which the split refuses - such a gene is refused on reading (before the repair it was loaded and the record could
+   not be written as soon as it held a second feature). *)
+Definition sortable (l : loc) : bool :=
+  if bridges l then match split_bridging l with Ok _ => true | Err _ => false end else true.
+Definition load_path_record (tbl : list Z) (sq : Z -> Z) (n : Z) (l : loc) (cs s e : Z) : list Z :=
+  match cds_from_biopython tbl sq n l cs with
+  | Ok (g, _, _) => if sortable g then load_path tbl sq n l cs s e else [1; E_SecmetInvalid]
+  | Err k => [1; k]
+  end.
+
 (* ---------- Prepeptide.to_biopython: leader / core / tail locations ---------- *)
 Definition prepeptide_locs (l : loc) (ll tl : Z) : res (list loc) :=
   let total := llen l / 3 in
@@ -514,9 +528,13 @@ Definition run_C09 (fn : Z) (l : list Z) : list Z :=
          | Some ((a, bases), []) => eList (fun x => [x]) (extract (seq_of bases) a)
          | _ => bad_input end
   (* 7: CDSFeature.from_biopython; 8: the same through Record.from_biopython / Record.to_biopython *)
-  | 7 | 8 => match dLoadIn l with
+  | 7 => match dLoadIn l with
          | Some ((a, cs, (bases, tbl), (s, e)), []) =>
            if nonempty_loc a then load_path tbl (seq_of bases) (zlen bases) a cs s e else bad_input
+         | _ => bad_input end
+  | 8 => match dLoadIn l with
+         | Some ((a, cs, (bases, tbl), (s, e)), []) =>
+           if nonempty_loc a then load_path_record tbl (seq_of bases) (zlen bases) a cs s e else bad_input
          | _ => bad_input end
   (* 9: Prepeptide.to_biopython -> from_biopython (build_location_from_others) -> to_biopython *)
   | 9 => match dPair dLoc (dPair dZ dZ) l with
